@@ -118,6 +118,19 @@ def analyse(F, b, params):
             return False
         return bool(NODE_ITER_T.search(F.types[t['gargs'][0]].get('p', '')))
     nexts = calls_in(b, is_node_next)
+    K.buffered = False
+    if not nexts:
+        # accepted for everything but C20's liveness clause: the edges of the taken node are first collected, then walked
+        cand = []
+        for bi, t in calls_in(b, lambda t: t['callee'] == 'std::iter::Iterator::next'):
+            src = pv.of_operand(t['args'][0])
+            cs = term_calls(src)
+            if any(c[1] == 'std::iter::Iterator::collect' for c in cs) and any(re.search(r'::node::Node::(iter_out|iter_in|iter)$', c[1]) for c in cs) and \
+                    not any(c[1].startswith('std::iter::Iterator::') and c[1].split('::')[-1] in ('rev', 'skip', 'take', 'filter', 'step_by', 'skip_while', 'take_while', 'filter_map') for c in cs):
+                cand.append((bi, t))
+        if len(cand) == 1:
+            nexts = cand
+            K.buffered = True
     K.n_next = len(nexts)
     if len(nexts) != 1:
         buffered = [t for bi, t in calls_in(b, lambda t: t['callee'] == 'std::iter::Iterator::next') if
@@ -126,7 +139,7 @@ def analyse(F, b, params):
         return K
     nbi, nt = nexts[0]
     K.sites['NEXT'] = nbi
-    K.iter_type = F.types[nt['gargs'][0]]['p'].split('::')[-1]
+    K.iter_type = F.types[nt['gargs'][0]].get('p', '?').split('::')[-1]
     iter_term = pv.of_operand(nt['args'][0])
     ctor = None
     for c in term_calls(iter_term):
